@@ -125,6 +125,7 @@ def c17(ctx):
     ctx.bounds.update({'projection_depth': 2, 'access_forms': ['&ArcSwap', 'Map<&ArcSwap>', 'Map<&Map>', 'Map<Arc<ArcSwap>>', 'Box<dyn DynAccess>', 'Constant'],
                        'stores': 'one before and one during the guards (symbolic values)'})
     seq_run(ctx, 'c17_access')
+    seq_run(ctx, 'c17_access_threads')
     if ctx.tier != 'quick':
         seq_run(ctx, 'c17_access', flavor='dbg')
 
@@ -192,3 +193,25 @@ def c08(ctx):
         s = ctx.session('rel')
         r = conc.run_havoc(s, SPECS[name])
         ctx.add(tag(r, flavor='rel'))
+
+
+@prop('C10')
+def c10(ctx):
+    ctx.bounds.update({'sequential_histories': 'n in 0..10 guards created on thread 1; thread 1 exits; optional re-claim of its node by a new thread; optional store by a third thread; guards dropped on another thread; container consumed',
+                       'concurrent': '2 threads: guard created by thread 1 dropped on thread 2 while thread 1 stores (thorough)'})
+    seq_run(ctx, 'c10_seq_threads')
+    seq_run(ctx, 'c10_seq_container_drop')
+    if ctx.tier != 'quick':
+        seq_run(ctx, 'c10_seq_threads', flavor='dbg')
+        conc_run(ctx, SPECS['moved_guard'], loop_bound=3)
+
+
+@prop('C11')
+def c11(ctx):
+    ctx.bounds.update({'histories': 'symbolic sequences of length %d over {thread t reads, thread t writes, thread t exits}, t in 1..3' % (3 if ctx.tier == 'quick' else 4),
+                       'shutdown': 'load / store / swap executed on a thread whose thread-local storage is already torn down'})
+    ctx.outside += ['a writer walking a node at the very moment its thread exits or is re-claimed (needs the concurrent mode with thread exit; see DESIGN.md)']
+    seq_run(ctx, 'c11_churn_3' if ctx.tier == 'quick' else 'c11_churn_4', max_paths=100000)
+    seq_run(ctx, 'c11_shutdown_ops')
+    if ctx.tier != 'quick':
+        seq_run(ctx, 'c11_shutdown_ops', flavor='dbg')
